@@ -35,7 +35,8 @@ LEVEL_TEXT = ("Exploration: thousands of (tree, transform, centre mode) cases: r
               " One tree in three is edited in place (node handle, item or column write, the root included) and transformed again by the same instance."
               " Generated trees come in several representations of the same values (strided, other dtypes / lists, one array as two columns, read-only where the harness never writes) and half of them were queried, a third put through aborted operations, before use. Integer-typed matrices; matrix builders are called again after the caller edited the first result in place."
               " Trees read from tables with their own column labels."
-              " Small-unit (metre, millimetre) trees; tolerances purely relative to the magnitudes involved.")
+              " Small-unit (metre, millimetre) trees; tolerances purely relative to the magnitudes involved."
+              " Rotations under two-decimal print options right after a rotation about an almost identical axis.")
 LEVEL_NOTE = ("Tolerance 3e-5*(1+largest coordinate magnitude) on float32 results (measured noise "
               "~1e-6 relative); rotation axes are unit vectors (the documented formula presumes "
               "|n| = 1).")
